@@ -50,7 +50,7 @@ ViewOpts ==
 Inputs ==
     {"empty", "1byte", "5bytes", "shape_only", "magic_only", "magic_v1_nolen", "text_no_values", "text_shape_empty",
      "text_shape_zero", "text_shape_overflow", "text_shape_negative", "text_huge_value", "text_nan_values", "npy_shape_overflow",
-     "npy_shape_zero", "npy_header_len_huge", "text_shape_zero_overflow", "npy_shape_zero_overflow", "npy_v9", "npy_dict_garbage", "npy_shape_nonint", "binary_garbage", "utf8_bom_text"}
+     "npy_shape_zero", "npy_header_len_huge", "text_shape_zero_overflow", "npy_shape_zero_overflow", "npy_shape_scalar", "npy_shape_scalar_novalue", "text_shape_scalar_like", "npy_v9", "npy_dict_garbage", "npy_shape_nonint", "binary_garbage", "utf8_bom_text"}
 
 SampleLists ==
     {"dup_same_label", "dup_diff_label", "dup_unnamed_named", "unknown", "empty_arg", "empty_file", "only_equals", "trailing_comma",
@@ -84,7 +84,8 @@ Scenarios ==
     [kind : {"stat"}, stat : StatNames, shape : StatShapes]
     \cup [kind : {"view"}, o : ViewOpts, shape : ViewShapes]
     \cup [kind : {"fold"}, shape : ViewShapes \cup {<<0>>, <<1>>, <<1, 1>>, <<0, 3>>}, fill : {"nan", "zero", "minus-one", "inf"}, precision : {"0", "6", "400"}]
-    \cup [kind : {"input"}, input : Inputs, tool : {"view", "fold", "stat"}]
+    \* (a reader that lets a degenerate input through hands it to every consumer: each statistic is a consumer of its own)
+    \cup [kind : {"input"}, input : Inputs, tool : {"view", "fold", "stat"} \cup {"stat-" \o st : st \in {"king", "r0", "f2", "fst", "pi", "d-tajima", "f4", "s"}}]
     \cup [kind : {"samples"}, list : SampleLists, project : BOOLEAN]
     \cup [kind : {"mutate"}, format : Formats, field : UNION {FieldsOf(f) : f \in Formats}, damage : Damages]
     \* sizes at which binomial coefficients leave the f64 range and the log-gamma path is taken
